@@ -175,6 +175,23 @@ Free(e) ==
     [] e.t = "Q" -> ToSet(e.dom) \cup ToSet(e.cod)
     [] OTHER -> {}
 
+\* free names that occur as random variables (not merely as the value of an intervention subscript)
+RECURSIVE RandFree(_)
+RandFree(e) ==
+  CASE e.t = "P" -> {v.n : v \in TermVars(e)}
+    [] e.t = "M" -> UNION {RandFree(e.es[i]) : i \in DOMAIN e.es}
+    [] e.t = "F" -> RandFree(e.a) \cup RandFree(e.b)
+    [] e.t = "S" -> RandFree(e.e) \ ToSet(e.r)
+    [] e.t = "Q" -> ToSet(e.dom) \cup ToSet(e.cod)
+    [] OTHER -> {}
+
+RECURSIVE HasQ(_)
+HasQ(e) == CASE e.t = "Q" -> TRUE
+             [] e.t = "M" -> \E i \in DOMAIN e.es : HasQ(e.es[i])
+             [] e.t = "F" -> HasQ(e.a) \/ HasQ(e.b)
+             [] e.t = "S" -> HasQ(e.e)
+             [] OTHER -> FALSE
+
 \* every summation variable occurs free in its summand (sums over absent variables are outside the
 \* families of C10-C13, see DESIGN 7)
 RECURSIVE WellScoped(_)
